@@ -209,7 +209,9 @@ CONFIG["C08"] = dict(
                "unanswered complaint, > t complaints, missing / late / malformed vector each disqualify; plain Feldman VSS returns keys only with a valid stored vector and a share passing the check against it (invariant over all call sequences of a non-dealer). "
                "own_complaint_at_most_once: over every sequence of deliveries and timeouts an honest participant broadcasts its complaint at most once (so it is never flagged for a duplicate: defect class F9); share_vector_any_order and "
                "complaint_answer_any_order: the two historically defective orders (F9, F10) give the same state in either order. "
-               "That honest senders never trigger the blame branches in every schedule is exercised by the runs, not yet a theorem (partial).",
+               "honest_dealer_never_disqualified: whatever the other participants broadcast or send and in whatever order, if the dealer sends nothing but its vector, the receiver's share and valid answers, the vector and the share arrive in the first round, "
+               "at most t participants ever complain and each is answered before End, then End returns the receiver's share and the dealer's keys (invariant over all delivery sequences; a concrete run meeting every hypothesis is checked as an example). "
+               "That an honest *complainer* is never flagged by the others follows from own_complaint_at_most_once; the remaining network-level statement (who delivers what to whom) is exercised by the runs (partial).",
     level_note="Lean kernel + correspondence",
     assumptions=["reliable broadcast, round-synchronous delivery, at most t Byzantine participants"],
 )
